@@ -86,6 +86,179 @@ FORMS = [
     (0x1f21, 'DW_FORM_GNU_strp_alt', 'word', 'AttributeValue::DebugStrRefSup(DebugStrOffset(x))', OFF),
 ]
 
+
+# ---------------------------------------------------------------------------------------------------------------------
+# AttributeValue variants: (variant, payload kind).  num: an integer; flag: a bool; view: a reader; expr: Expression(reader);
+# w:T  newtype T around an integer/offset; dw:T  dw! constant newtype.  Used to generate the ghost `payload` projection,
+# the `same_value` relation and the spec'd clone (derived Clone of a generic type has no spec in Verus).
+VARIANTS = [
+    ('Addr', 'num'), ('Block', 'view'), ('Data1', 'num'), ('Data2', 'num'), ('Data4', 'num'), ('Data8', 'num'), ('Data16', 'num'),
+    ('Sdata', 'num'), ('Udata', 'num'), ('Exprloc', 'expr'), ('Flag', 'flag'), ('SecOffset', 'off'),
+    ('DebugAddrBase', 'wo:DebugAddrBase'), ('DebugAddrIndex', 'wo:DebugAddrIndex'), ('UnitRef', 'wo:UnitOffset'),
+    ('DebugInfoRef', 'wo:DebugInfoOffset'), ('DebugInfoRefSup', 'wo:DebugInfoOffset'), ('DebugLineRef', 'wo:DebugLineOffset'),
+    ('LocationListsRef', 'wo:LocationListsOffset'), ('DebugLocListsBase', 'wo:DebugLocListsBase'),
+    ('DebugLocListsIndex', 'wo:DebugLocListsIndex'), ('DebugMacinfoRef', 'wo:DebugMacinfoOffset'),
+    ('DebugMacroRef', 'wo:DebugMacroOffset'), ('RangeListsRef', 'wo:RawRangeListsOffset'),
+    ('DebugRngListsBase', 'wo:DebugRngListsBase'), ('DebugRngListsIndex', 'wo:DebugRngListsIndex'),
+    ('DebugTypesRef', 'w:DebugTypeSignature'), ('DebugStrRef', 'wo:DebugStrOffset'), ('DebugStrRefSup', 'wo:DebugStrOffset'),
+    ('DebugStrOffsetsBase', 'wo:DebugStrOffsetsBase'), ('DebugStrOffsetsIndex', 'wo:DebugStrOffsetsIndex'),
+    ('DebugLineStrRef', 'wo:DebugLineStrOffset'), ('String', 'view'),
+    ('Encoding', 'dw:DwAte'), ('DecimalSign', 'dw:DwDs'), ('Endianity', 'dw:DwEnd'), ('Accessibility', 'dw:DwAccess'),
+    ('Visibility', 'dw:DwVis'), ('Virtuality', 'dw:DwVirtuality'), ('Language', 'dw:DwLang'), ('AddressClass', 'dw:DwAddr'),
+    ('IdentifierCase', 'dw:DwId'), ('CallingConvention', 'dw:DwCc'), ('Inline', 'dw:DwInl'), ('Ordering', 'dw:DwOrd'),
+    ('FileIndex', 'num'), ('DwoId', 'w:DwoId'),
+]
+
+# Attribute names (DWARF 5 table 7.5: code, classes).  Only the classes that gimli's AttributeValue distinguishes matter:
+#   a section-offset class says WHICH section a DW_FORM_sec_offset value of that attribute points into (the "target");
+#   exprloc says a DW_FORM_block* value (DWARF 2/3 encoding of expressions) is an expression.
+SECPTR = {
+    'lineptr': ('DebugLineRef', 'DebugLineOffset', [0x10]),                                     # stmt_list
+    'loclist': ('LocationListsRef', 'LocationListsOffset',
+                [0x02, 0x19, 0x2a, 0x38, 0x40, 0x46, 0x48, 0x4a, 0x4d]),                        # location string_length return_addr data_member_location frame_base segment static_link use_location vtable_elem_location
+    'rnglist': ('RangeListsRef', 'RawRangeListsOffset', [0x2c, 0x55]),                          # start_scope ranges
+    'macptr(macinfo)': ('DebugMacinfoRef', 'DebugMacinfoOffset', [0x43]),                       # macro_info
+    'macptr(macro)': ('DebugMacroRef', 'DebugMacroOffset', [0x79]),                             # macros
+    'stroffsetsptr': ('DebugStrOffsetsBase', 'DebugStrOffsetsBase', [0x72]),                    # str_offsets_base
+    'addrptr': ('DebugAddrBase', 'DebugAddrBase', [0x73, 0x2133]),                              # addr_base GNU_addr_base
+    'rnglistsptr': ('DebugRngListsBase', 'DebugRngListsBase', [0x74, 0x2132]),                  # rnglists_base GNU_ranges_base
+    'loclistsptr': ('DebugLocListsBase', 'DebugLocListsBase', [0x8c]),                          # loclists_base
+}
+# attributes with class exprloc in table 7.5 (DWARF 2/3 producers encode these expressions as DW_FORM_block*)
+EXPRLOC_NAMES = [0x02, 0x0b, 0x0c, 0x0d, 0x19, 0x22, 0x2a, 0x2e, 0x2f, 0x37, 0x38, 0x40, 0x46, 0x48, 0x4a, 0x4d, 0x4e, 0x4f,
+                 0x50, 0x51, 0x71, 0x7e, 0x83, 0x84, 0x85, 0x86]
+# enumerated constant attributes: name -> (variant, dw type, max of the constant's storage type)
+ENUM_NAMES = [(0x09, 'Ordering', 'DwOrd', 0xff), (0x13, 'Language', 'DwLang', 0xffff), (0x17, 'Visibility', 'DwVis', 0xff),
+              (0x20, 'Inline', 'DwInl', 0xff), (0x32, 'Accessibility', 'DwAccess', 0xff),
+              (0x33, 'AddressClass', 'DwAddr', 0xffff_ffff_ffff_ffff), (0x36, 'CallingConvention', 'DwCc', 0xff),
+              (0x3e, 'Encoding', 'DwAte', 0xff), (0x42, 'IdentifierCase', 'DwId', 0xff), (0x4c, 'Virtuality', 'DwVirtuality', 0xff),
+              (0x5e, 'DecimalSign', 'DwDs', 0xff), (0x65, 'Endianity', 'DwEnd', 0xff)]
+# unsigned constant attributes that are reported as Udata / FileIndex / DwoId
+UDATA_NAMES = [0x0b, 0x0c, 0x0d, 0x12, 0x2e, 0x38, 0x39, 0x3b, 0x51, 0x57, 0x59]
+FILE_NAMES = [0x3a, 0x58]
+DWOID_NAMES = [0x2131]
+
+
+def gen_value_specs():
+    pay, same, clone = [], [], []
+    for v, k in VARIANTS:
+        A = f'AttributeValue::{v}'
+        if k == 'num':
+            pay.append(f'        {A}(x) => Payload::Num(x as int),')
+            clone.append(f'        {A}(x) => {A}(*x),')
+        elif k == 'flag':
+            pay.append(f'        {A}(x) => Payload::Num(if x {{ 1 }} else {{ 0 }}),')
+            clone.append(f'        {A}(x) => {A}(*x),')
+        elif k == 'view':
+            pay.append(f'        {A}(r) => Payload::View(r.rv()),')
+            same.append(f'        {A}(r) => b matches {A}(r2) && r2.rv() == r.rv(),')
+            clone.append(f'        {A}(r) => {A}(reader_clone(r)),')
+        elif k == 'expr':
+            pay.append(f'        {A}(e) => Payload::View(e.0.rv()),')
+            same.append(f'        {A}(e) => b matches {A}(e2) && e2.0.rv() == e.0.rv(),')
+            clone.append(f'        {A}(e) => {A}(expression_clone(e)),')
+        elif k == 'off':
+            pay.append(f'        {A}(x) => Payload::Num(x.as_nat() as int),')
+            clone.append(f'        {A}(x) => {A}(*x),')
+        elif k.startswith('wo:'):
+            pay.append(f'        {A}(x) => Payload::Num(x.0.as_nat() as int),')
+            clone.append(f'        {A}(x) => {A}(*x),')
+        else:
+            pay.append(f'        {A}(x) => Payload::Num(x.0 as int),')
+            clone.append(f'        {A}(x) => {A}(*x),')
+    NL = '\n'
+    return f"""
+// ---- ghost projections of AttributeValue (GENERATED from VARIANTS)
+pub ghost enum Payload {{ Num(int), View(RView) }}
+
+/// numeric payload / target offset / view of a value, without its class label
+pub open spec fn payload<R: Reader<Offset = Offset>, Offset: ReaderOffset>(v: AttributeValue<R, Offset>) -> Payload {{
+    match v {{
+{NL.join(pay)}
+    }}
+}}
+
+/// equal up to the identity of reader values (a cloned reader is the same view)
+pub open spec fn same_value<R: Reader<Offset = Offset>, Offset: ReaderOffset>(a: AttributeValue<R, Offset>, b: AttributeValue<R, Offset>) -> bool {{
+    match a {{
+{NL.join(same)}
+        _ => a == b,
+    }}
+}}
+
+/// unsigned reading of a constant-class value: dataN are zero-extended, a negative sdata has none
+pub open spec fn unum<R: Reader<Offset = Offset>, Offset: ReaderOffset>(v: AttributeValue<R, Offset>) -> Option<int> {{
+    match v {{
+        AttributeValue::Data1(d) => Some(d as int),
+        AttributeValue::Data2(d) => Some(d as int),
+        AttributeValue::Data4(d) => Some(d as int),
+        AttributeValue::Data8(d) => Some(d as int),
+        AttributeValue::Udata(d) => Some(d as int),
+        AttributeValue::Sdata(d) => if d < 0 {{ None }} else {{ Some(d as int) }},
+        _ => None,
+    }}
+}}
+
+/// signed reading: dataN are two's complement at their own width, a udata above i64::MAX has none
+pub open spec fn snum<R: Reader<Offset = Offset>, Offset: ReaderOffset>(v: AttributeValue<R, Offset>) -> Option<int> {{
+    match v {{
+        AttributeValue::Data1(d) => Some(if d >= 0x80 {{ d as int - 0x100 }} else {{ d as int }}),
+        AttributeValue::Data2(d) => Some(if d >= 0x8000 {{ d as int - 0x1_0000 }} else {{ d as int }}),
+        AttributeValue::Data4(d) => Some(if d >= 0x8000_0000 {{ d as int - 0x1_0000_0000 }} else {{ d as int }}),
+        AttributeValue::Data8(d) => Some(if d >= 0x8000_0000_0000_0000 {{ d as int - 0x1_0000_0000_0000_0000 }} else {{ d as int }}),
+        AttributeValue::Sdata(d) => Some(d as int),
+        AttributeValue::Udata(d) => if d > 0x7fff_ffff_ffff_ffff {{ None }} else {{ Some(d as int) }},
+        _ => None,
+    }}
+}}
+
+// ---- spec'd clones (R-CLONE): Verus gives the derived Clone of a generic type no specification.  These are VERIFIED
+// models of what #[derive(Clone)] generates, on top of the one assumption `reader_clone` (a cloned reader has the same view).
+pub fn expression_clone<R: Reader>(e: &Expression<R>) -> (res: Expression<R>)
+    ensures res.0.rv() == e.0.rv()
+{{
+    Expression(reader_clone(&e.0))
+}}
+
+pub fn attrvalue_clone<R: Reader<Offset = usize>>(v: &AttributeValue<R>) -> (res: AttributeValue<R>)
+    ensures same_value(*v, res), payload(res) == payload(*v)
+{{
+    match v {{
+{NL.join(clone)}
+    }}
+}}
+"""
+
+
+def name_in(codes):
+    return '(' + ' || '.join(f'self.sname().0 == {c:#x}' for c in codes) + ')'
+
+
+def value_clauses():
+    RAW = 'self.sval()'
+    out = [f'[C03:value-payload] payload(res) == payload({RAW})']
+    allnames = set()
+    for cls, (var, wrap, codes) in SECPTR.items():
+        allnames.update(codes)
+        for c in codes:
+            out.append(f'[C03:value-target-{cls}-{c:#x}] self.sname().0 == {c:#x} ==> ({RAW} matches AttributeValue::SecOffset(o) ==> '
+                       f'(res matches AttributeValue::{var}({wrap}(x)) && x == o))')
+    allnames.update(EXPRLOC_NAMES)
+    out.append(f'[C03:value-exprloc][C10:view] {name_in(EXPRLOC_NAMES)} ==> ({RAW} matches AttributeValue::Block(r) ==> '
+               '(res matches AttributeValue::Exprloc(Expression(r2)) && r2.rv() == r.rv()))')
+    for c, var, ty, mx in ENUM_NAMES:
+        allnames.add(c)
+        out.append(f'[C03:value-enum-{var}] self.sname().0 == {c:#x} ==> (unum({RAW}) matches Some(v) ==> '
+                   f'(if v <= {mx:#x} {{ res matches AttributeValue::{var}(constants::{ty}(x)) && x as int == v }} else {{ same_value({RAW}, res) }}))')
+    for codes, var, pat in [(UDATA_NAMES, 'udata', 'AttributeValue::Udata(x)'), (FILE_NAMES, 'file-index', 'AttributeValue::FileIndex(x)'),
+                            (DWOID_NAMES, 'dwo-id', 'AttributeValue::DwoId(DwoId(x))')]:
+        allnames.update(codes)
+        out.append(f'[C03:value-{var}] {name_in(codes)} ==> (unum({RAW}) matches Some(v) ==> (res matches {pat} && x as int == v))')
+    # values that no class conversion applies to are returned as they are
+    out.append(f'[C03:value-relabel-scope] !({RAW} is SecOffset || {RAW} is Block || unum({RAW}) is Some) ==> same_value({RAW}, res)')
+    out.append(f'[C03:value-other-names] !{name_in(sorted(allnames))} ==> same_value({RAW}, res)')
+    return out
+
 FIXED = {'u1': 1, 'u2': 2, 'u3': 3, 'u4': 4, 'u8': 8, 'u16': 16, 'data4': 4, 'data8': 8, 'zero': 0, 'implicit': 0}
 ENC = 'encoding'
 
@@ -232,20 +405,6 @@ ATTR_GHOST = '''
 '''
 
 
-def dw_last_const(ctx, ty):
-    """lib.dw_consts() only sees `NAME = value,` entries: the LAST constant of a dw! block has no trailing comma and is
-    lost (DW_FORM_GNU_strp_alt).  Emit it here from the source text (reported as a needed lib.py change)."""
-    c = Source('constants.rs', ctx).text
-    m = re.search(r'%s\((\w+)\) \{(.*?)\n\}\);' % ty, c, re.S)
-    if not m:
-        raise Lost('dw! ' + ty)
-    mm = re.search(r'(\w+)\s*=\s*(0x[0-9a-fA-F_]+|\d+)\s*$', m.group(2))
-    if not mm:
-        return ''
-    ctx.count('R-DW')
-    return f'pub const {mm.group(1)}: {ty} = {ty}({mm.group(2)});'
-
-
 def derived_eq(ty):
     """A-DERIVE-EQ: `==` of a #[derive(PartialEq)] type without type parameters is structural equality (the language
     definition of the derive).  Verus gives the derived impl no spec, so the exec comparisons `form == DW_FORM_x`,
@@ -255,10 +414,24 @@ def derived_eq(ty):
             f'    open spec fn eq_spec(&self, other: &{ty}) -> bool {{ *self == *other }}\n}}')
 
 
+def value_fn_contracts(it, V, off):
+    """contracts of the *_value accessors, on AttributeValue (V = *self) and on Attribute (V = self.sval())"""
+    it.splice('udata_value', ret='res', ensures=[
+        f'[C03:udata-value] (res matches Some(x) ==> unum({V}) == Some(x as int)) && (res is None ==> unum({V}) is None)'])
+    it.splice('sdata_value', ret='res', ensures=[
+        f'[C03:sdata-value] (res matches Some(x) ==> snum({V}) == Some(x as int)) && (res is None ==> snum({V}) is None)'])
+    it.splice('u8_value', ret='res', ensures=[
+        f'[C03:u8-value] (res matches Some(x) ==> unum({V}) == Some(x as int)) && (res is None ==> (unum({V}) matches Some(v) ==> v > 0xff))'])
+    it.splice('u16_value', ret='res', ensures=[
+        f'[C03:u16-value] (res matches Some(x) ==> unum({V}) == Some(x as int)) && (res is None ==> (unum({V}) matches Some(v) ==> v > 0xffff))'])
+    it.splice('offset_value', ret='res', ensures=[
+        f'[C03:offset-value] res == (match {V} {{ AttributeValue::SecOffset(o) => Some(o), _ => None::<{off}> }})'])
+    it.splice('exprloc_value', ret='res', ensures=[
+        f'[C03:exprloc-value][C10:view] match {V} {{ AttributeValue::Block(r) => res matches Some(Expression(r2)) && r2.rv() == r.rv(), '
+        f'AttributeValue::Exprloc(e) => res matches Some(e2) && e2.0.rv() == e.0.rv(), _ => res is None }}'])
+
+
 def populate(ctx, sk):
-    last = dw_last_const(ctx, 'DwForm')
-    if last and not any(isinstance(c[0], str) and last in c[0] for c in sk.mods['constants']['chunks']):
-        sk.add('constants', last, label='DwForm(last)')     # only with an old lib.dw_consts
     sk.add('constants', derived_eq('DwForm') + '\n' + derived_eq('DwAt'), label='derived-eq')
     sk.add('common', derived_eq('Format'), label='derived-eq')
     ab = Source('read/abbrev.rs', ctx)
@@ -327,13 +500,30 @@ use crate::vspec::*;
 use crate::aspec::*;''')
     sk.add('read::unit', un.item(r'^pub enum AttributeValue<R, Offset').clean(rejrec=['R', 'Offset']))
     sk.add('read::unit', un.item(r'^pub struct Attribute<R: Reader>').clean(rejrec=['R']))
+    sk.add('read::unit', gen_value_specs(), label='value-specs')
+
+    # ---- AttributeValue::{u8_value .. exprloc_value}: arithmetic specs (sign rules at the width boundaries)
+    SV = '*self'
+    avi = un.item(r'^impl<R, Offset> AttributeValue<R, Offset>', label='AttributeValue')
+    avi.drop(['string_value', 'string_value_sup'])       # need DebugStr (batch units/str)
+    avi.custom('R-CLONE', 'Expression(data.clone())', 'Expression(reader_clone(data))')
+    avi.custom('R-CLONE', 'AttributeValue::Exprloc(ref data) => data.clone()', 'AttributeValue::Exprloc(ref data) => expression_clone(data)')
+    avi.clean(offset=False)
+    avi.own(OWN)
+    value_fn_contracts(avi, SV, 'Offset')
+    sk.add('read::unit', avi)
+
     ati = un.item(r'^impl<R: Reader> Attribute<R> \{', label='Attribute')
-    ati.keep_only(['name', 'form'])
+    ati.drop(['string_value', 'string_value_sup'])
+    ati.custom('R-CLONE', 'self.value.clone()', 'attrvalue_clone(&self.value)', count=2)
     ati.clean()
     ati.own(OWN)
     ati.insert_members(ATTR_GHOST)
     ati.splice('name', ret='res', ensures=['res == self.sname()'])
     ati.splice('form', ret='res', ensures=['res == self.sform()'])
+    ati.splice('raw_value', ret='res', ensures=['[C03:raw-value] same_value(self.sval(), res)'])
+    value_fn_contracts(ati, 'self.sval()', 'usize')
+    ati.splice('value', ret='res', ensures=value_clauses())
     sk.add('read::unit', ati)
 
     aso = un.item(r'^fn allow_section_offset').clean()
